@@ -101,7 +101,7 @@ def plan_c09(case):
 
 # ------------------------------------------------------------------------------------------- C07 (one-shot)
 def tails_for(w):
-    return [[0, 0], [0], [255], list(w), [0x30, 0x80], [5, 0, 0, 0]]
+    return [[0, 0], [255], list(w)]
 
 
 def plan_c07(case):
@@ -109,7 +109,7 @@ def plan_c07(case):
     if err:
         return trace(case, [], err)
     ev = []
-    for codec, d, c in (('der', True, 0), ('cer', True, 0), ('ber', True, 0), ('ber', False, 0), ('ber', False, 2)):
+    for codec, d, c in (('der', True, 0), ('cer', True, 0), ('ber', False, 2)):
         e = R.enc_event(codec, obj, d, c)
         ev.append(e)
         src = len(ev)
@@ -117,13 +117,15 @@ def plan_c07(case):
             continue
         for t in [[]] + tails_for(e['wire']):
             ev.append(R.dec_event(codec, e['wire'] + t, case['T'], spec, 'tail' if t else 'own', tail=t, src=src))
-    for m in ('der', 'cer', 'ber_indef', 'v_indefdef', 'v_nestindef'):
+    for m in ('ber_indef', 'v_indefdef', 'v_nestindef'):
         w = case['forms'].get(m)
         if w is None:
             continue
         rules = m if m in ('der', 'cer') else 'ber'
-        for t in tails_for(w)[:3]:
-            ev.append(R.dec_event(rules, w + t, case['T'], spec, 'tail', tail=t))
+        for t in ([0, 0], [0], [5, 0]):
+            e = R.dec_event(rules, w + t, case['T'], spec, 'tail', tail=t)
+            e['mode'] = m
+            ev.append(e)
     return trace(case, ev)
 
 
@@ -205,6 +207,7 @@ def plan_c13(case):
             codec, wv = wires[-1]
             e = R.dec_event(codec, wv, T2, spec2, 'nearmiss')
             e['v'] = {'nul': 0}
+            e['T2'] = T2
             ev.append(e)
     return trace(case, ev)
 
@@ -379,11 +382,12 @@ PROPS = {
                                                 shapes=['scalar', 'any', 'seqof', 'setof', 'choice', 'deep']),
                                      thorough=dict(pool=1)), sizes=False),
     'C07': dict(plan=plan_c07, clauses={'Rejected', 'NotAValue', 'ValueDiffers', 'RestDiffers', 'Crash', 'OneTLV'},
-                cfg=lambda tier: cfg(tier, modes=['der', 'cer', 'ber_indef', 'v_indefdef', 'v_nestindef']), sizes=False),
+                cfg=lambda tier: cfg(tier, modes=['ber_indef', 'v_indefdef', 'v_nestindef'],
+                                     quick=dict(shapes=['scalar', 'any', 'seqof', 'setof', 'choice', 'deep'])), sizes=False),
     'C09': dict(plan=plan_c09, clauses={'Rejected', 'NotAValue', 'ValueDiffers', 'RestDiffers', 'Crash'},
                 cfg=lambda tier: cfg(tier, modes=['der', 'cer'] + BER_LIB_MODES + VARIANT_MODES), sizes=False),
-    'C13': dict(plan=plan_c13, clauses={'TagSetDiffers', 'ExplicitUniversal', 'Headers', 'Rejected', 'ValueDiffers',
-                                        'RestDiffers', 'Accepted', 'Crash', 'EncRefused', 'NotAValue'},
+    'C13': dict(plan=plan_c13, clauses={'TagSetDiffers', 'ExplicitUniversal', 'Headers', 'Rejected', 'Accepted', 'Crash',
+                                        'EncRefused'},
                 cfg=lambda tier: cfg(tier, modes=['der'],
                                      quick=dict(tagnums=[0, 1, 30, 31, 127, 128, 16383, 16384, 2 ** 32], classes=[1, 2, 3],
                                                 maxstack=1, shapes=['scalar', 'any', 'seqof', 'choice', 'deep']),
